@@ -28,6 +28,7 @@ import (
 	"time"
 
 	"github.com/marekgalovic/anndb"
+	"github.com/marekgalovic/anndb/cluster"
 	"github.com/marekgalovic/anndb/index"
 	pb "github.com/marekgalovic/anndb/protobuf"
 	"github.com/marekgalovic/anndb/storage"
@@ -118,7 +119,10 @@ type Cluster struct {
 	OnEvent func(n *Node, group uuid.UUID, point string, args ...interface{})
 	OnSend  func(from *Node, to uint64, group uuid.UUID, m *MsgInfo, durable *Durable)
 	OnSave  func(n *Node, group uuid.UUID, w *RecWAL, kind string)
-	OnPoint func(point string, args ...interface{})
+	// SaveDelay, when set, is asked at the entry of every durable write of a wrapped log store how long that
+	// write takes to reach the disk (a slow disk; the call sleeps that long before anything else happens).
+	SaveDelay func(n *Node, group uuid.UUID) time.Duration
+	OnPoint   func(point string, args ...interface{})
 }
 
 var (
@@ -277,6 +281,13 @@ func installHooks() {
 			if c := cur(); c != nil {
 				if f := c.OnPoint; f != nil {
 					f(point, args...)
+				}
+			}
+		}
+		cluster.VerifYield = func(point string) {
+			if c := cur(); c != nil {
+				if f := c.OnPoint; f != nil {
+					f(point)
 				}
 			}
 		}
